@@ -95,8 +95,9 @@ func VerifC04Hook() {
 	for _, b := range fromContract {
 		anyFromContract = anyFromContract || b
 	}
-	sendErrs := 0
+	sendErrs, sendCalls := 0, 0
 	rt.Override("(github.com/teleport-network/teleport/x/xibc/core/packet/keeper.Keeper).SendPacket", func(k Keeper, ctx sdkContext, packet packetI) error {
+		sendCalls++
 		err := k.SendPacket(ctx, packet)
 		if err != nil {
 			sendErrs++
@@ -113,6 +114,18 @@ func VerifC04Hook() {
 		rt.Assert("S2-send-failure-fails-transaction", err != nil)
 	}
 	if err == nil {
+		// every PacketSent log of the packet contract in the receipt became exactly one send
+		qualifying := 0
+		for i, l := range receipt.Logs {
+			if !fromContract[i] || len(l.Topics) == 0 {
+				continue
+			}
+			ev, e := packetcontract.PacketContract.ABI.EventByID(l.Topics[0])
+			if e == nil && ev.Name == types.PacketSendEvent {
+				qualifying++
+			}
+		}
+		rt.Assert("S5-one-send-per-PacketSent-log", sendCalls == qualifying)
 		rt.Reach("hook-ok")
 		// every commitment written belongs to one successful send: writes come in pairs (counter, commitment)
 		rt.Assert("S2-writes-paired", rt.StoreWrites(w.ctx, "xibc") == 2*len(w.evm.calls))
